@@ -1151,6 +1151,9 @@ func (ex *Exec) doUnOp(fr *Frame, st *State, x *ssa.UnOp) {
 		if ex.isPoolLoc(loc) {
 			ex.check(fr, st, "use-after-put", "", x.Pos(), sel(ex.heapTerm(st, ex.w.ghostHeap("G_held")), loc.Ref))
 		}
+		if loc.Idx != "" {
+			ex.checkNotGone(fr, st, loc.Ref, x.Pos())
+		}
 		ex.guardCheck(fr, st, loc.Ref, x.Pos())
 		t := ex.loadLoc(st, loc)
 		// name the loaded value
